@@ -1,6 +1,7 @@
 package checks
 
 import (
+	"encoding/json"
 	"fmt"
 	"os"
 	"strings"
@@ -58,4 +59,14 @@ func safely(f func()) (p any) {
 	defer func() { p = recover() }()
 	f()
 	return nil
+}
+
+func contains(s, sub string) bool { return strings.Contains(s, sub) }
+
+func mustJSON(v any) string {
+	b, err := json.MarshalIndent(v, "", " ")
+	if err != nil {
+		return fmt.Sprintf("unrenderable: %v", err)
+	}
+	return string(b)
 }
